@@ -1232,11 +1232,21 @@ func (t *tr) ret(x *ssa.Return, b *ssa.BasicBlock, R string, heaps map[string]st
 			renv.lets[l.Name] = l.Expr
 		}
 		renv.letEnv = renv
+		// the interface method's precondition held at entry (callers through the interface establish it)
+		var ihyps []string
+		for _, r := range ifs.Requires {
+			if h, err := t.evalAssume(r.Expr, renv, t.oldHeaps, t.oldHeaps); err == nil {
+				ihyps = append(ihyps, h)
+			}
+		}
 		for _, e := range ifs.Ensures {
 			term, err := t.evalGoal(e.Expr, renv, heaps, t.oldHeaps)
 			if err != nil {
 				t.fatalf("refines %s ensures %s: %v", key, e.Label, err)
 				continue
+			}
+			if len(ihyps) > 0 {
+				term = fmt.Sprintf("(=> (and %s) %s)", strings.Join(ihyps, " "), term)
 			}
 			t.oblige("refines", fmt.Sprintf("refines/%s.%s@return[%d]", shortName(key), e.Label, idx), R, term, x.Pos())
 		}
